@@ -583,6 +583,10 @@ def run(ctx):
     r04c(ctx)
     r04d(ctx)
     leaf_lists_rule(ctx, 'R04h', 'PIT')
+    # the spec values are handed out by reference (a features calculator returns its buffer):
+    # no registered cost function writes its spec or updates a value in place (= C12 R12b)
+    from . import c12
+    c12.r12b(ctx, rule='R04i')
     from .c12 import r12e
     r12e(ctx, 'R04e')       # unpruned continuous size = original size
     ctx.assume('nn.Module stores a missing bias as _parameters["bias"] = None')
